@@ -226,7 +226,7 @@ func ReplayAll(behs []Beh, env *core.Env, rep *core.Report, pause time.Duration,
 	// ones recurs, all are dropped.
 	retried, confirmed := 0, 0
 	for i := range results {
-		if results[i].i == -1 && retried < 6 {
+		if results[i].i == -1 && (retried < 6 || (confirmed == 0 && retried < 20)) {
 			retried++
 			rng := rand.New(rand.NewSource(env.Seed*1000003 + int64(i)))
 			ms, err := Lockstep(behs[i], rng, pause)
